@@ -47,7 +47,7 @@ VARIABLES prog, fi, ci, ph, reported, diags, memo    \* memo: the allow decision
 vars == <<prog, fi, ci, ph, reported, diags, memo>>
 
 Shapes == {"none", "bare", "name", "path", "lastelem", "other", "two_in", "two_out", "dup"}
-Refs == {"callF", "funcValue", "methCall", "methCallPS", "methCallS2", "chainCall", "methCallHidden", "typeVarHidden", "methCallVar", "methValue", "methCallPromoted", "methValuePromoted", "typeLit", "typeVar", "typeField", "typeParam", "typeResult",
+Refs == {"callF", "funcValue", "methCall", "methCallPS", "methCallS2", "chainCall", "aliasPlain", "methCallHidden", "typeVarHidden", "methCallVar", "methValue", "methCallPromoted", "methValuePromoted", "typeLit", "typeVar", "typeField", "typeParam", "typeResult",
          "typeLit2", "plain"}
 TypeRefs == {"typeLit", "typeVar", "typeField", "typeParam", "typeResult", "typeLit2"}
 HiddenRefs == {"methCallHidden", "typeVarHidden"}   \* d.Default.HM() on the unexported type hid; d.State, an exported alias of the unexported type state
@@ -87,9 +87,11 @@ Lines(al, P) ==
 
 Union(ls) == UNION {{ls[i][j] : j \in 1..Len(ls[i])} : i \in 1..Len(ls)}
 
+\* aliasPlain: var v Hdr with `type Hdr = map[string][]string` declared in the using package - an alias of a type that is not a
+\* defined type, unrelated to every annotation: never reported
 \* methCallS2: s2.PM() - a method called PM like S.PM, on another type S2, restricted to d itself (bare @packageonly)
 \* chainCall: d.NewPS().PSM() - two references in one expression: the function NewPS and the method PSM, both with shape al
-ShapeOf(r0, al) == LET r == Base(r0) IN IF r \in {"typeLit2", "methCallS2"} THEN "bare" ELSE IF r = "plain" THEN "none" ELSE al
+ShapeOf(r0, al) == LET r == Base(r0) IN IF r \in {"typeLit2", "methCallS2"} THEN "bare" ELSE IF r \in {"plain", "aliasPlain"} THEN "none" ELSE al
 
 Allowed(P, ls) == P = "d" \/ PathOf(P) \in Union(ls) \/ NameOf(P) \in Union(ls)
 
